@@ -75,7 +75,13 @@ def oracle(ctx, seeds=None):
             L, R = float(np.round(L)), float(np.round(R))
         for sd in (seeded('burgers') if i == 0 else []):
             L, R = sd.get('uL', L), sd.get('uR', R)
-        ok, out = impl.guarded(lambda: (bf(L, L), bf(L, R), bf(-R, -L)))
+        if i % 5 == 1 and i % 2 == 1 and abs(L) < 2 ** 40 and abs(R) < 2 ** 40:
+            # whole-number states held in INTEGER arrays
+            def bfi(l, r):
+                return float(np.asarray(bm.numflux(None, [np.array([int(l)], dtype=np.int64)], [np.array([int(r)], dtype=np.int64)])[0], dtype=float)[0])
+            ok, out = impl.guarded(lambda: (bfi(L, L), bfi(L, R), bfi(-R, -L)))
+        else:
+            ok, out = impl.guarded(lambda: (bf(L, L), bf(L, R), bf(-R, -L)))
         res.case(('burgers', np.sign(L + R), np.sign(L), np.sign(R), i % 5))
         if not ok:
             res.fail('burgers:raised', out, dict(model='burgers', L=L, R=R)); break
